@@ -17,7 +17,7 @@ func init() {
 		ID:    "C04",
 		Title: "A transaction's outcome is a function of configuration and request only",
 		Explanation: "Decides the two structural causes of run-to-run variation, not outcome equality itself: R1 map-order taint: the position of an element in a sequence built in Go map iteration order (Map.FindAll/FindRegex and everything returning their results) never flows into a map key, a stored field or a callee that uses it that way; " +
-			"R2 every range over a Go map reachable at request time is classified from its body (reset / order-insensitive accumulation / result building / formatting / overwrite / limit-dependent) and the order-sensitive classes are violations: an overwriting collection write (Set/SetIndex) keyed by the loop key, an early exit, an accumulation that stops at a limit; loops over map-ordered result slices must not overwrite a scalar variable with an element-derived value (last wins); " +
+			"R2 every range over a Go map reachable at request time is classified from its body (reset / order-insensitive accumulation / result building / formatting / overwrite / limit-dependent) and the order-sensitive classes are violations: an overwriting collection write (Set/SetIndex) keyed by the loop key, an early exit, an accumulation that stops at a limit; loops over map-ordered result slices must not overwrite a scalar variable with an element-derived value (last wins) nor be left from inside (first k win); " +
 			"R5 pooled collections are emptied on Close (Map.Reset removes every key), so a long-lived WAF starts each transaction like a fresh one (details in C05); R3 the inventory of map ranges is complete (minimum count) and every loop has a class; R4 hidden inputs: reads of the wall clock, random sources, environment and process state reachable from the Transaction API are confined to the frozen set of documented sites (TIME*, UNIQUE_ID, DURATION/stopwatches, setenv/ENV).",
 		NotDecided: []string{
 			"equality of outcomes across repetitions as such (a hyper-property)",
